@@ -130,6 +130,12 @@ func runC17(c *Ctx) {
 	norm := func(l []string) string { return strings.Join(l, "\n") }
 	base := norm(c17Work(tokens, names, useed, userTok))
 	shared, _ := jwt.DecodeAccountClaims(rtok)
+	// a shared object as an application may hold it: built in memory, lists in no particular order
+	for i := 9; i >= 0; i-- {
+		shared.Exports.Add(&jwt.Export{Subject: jwt.Subject(fmt.Sprintf("zz.shared.%d", i)), Type: jwt.Stream})
+		shared.Imports.Add(&jwt.Import{Subject: jwt.Subject(fmt.Sprintf("zz.imp.%d", i)), Account: kr.by["account"].pub, Type: jwt.Stream})
+	}
+	sharedBefore := canonString(reflect.ValueOf(shared).Elem())
 	sharedU, _ := jwt.DecodeUserClaims(userTok)
 	sharedA, _ := jwt.DecodeActivationClaims(tokens["activation"])
 	baseShared := norm(c17Shared(shared, sharedU, sharedA))
@@ -173,6 +179,10 @@ func runC17(c *Ctx) {
 			c.count(fmt.Sprintf("gomaxprocs_%d", procs))
 		}
 		runtime.GOMAXPROCS(old)
+	}
+	c.sum.ImplChecks++
+	if after := canonString(reflect.ValueOf(shared).Elem()); after != sharedBefore {
+		c.violation("C17: read-only queries changed the shared claims object", map[string]interface{}{"diff": firstDiff(sharedBefore, after)})
 	}
 	c.sample(map[string]interface{}{"worker_results_lines": len(strings.Split(base, "\n")), "first_lines": strings.Split(base, "\n")[:4], "shared_queries": strings.Split(baseShared, "\n")[:3]})
 	c.sum.DistinctNontriv = len(distinct)
